@@ -737,6 +737,26 @@ def r17_fold(text):
     return []
 
 
+# ---------------------------------------------------------------- R18 abstract a listed let-initialiser
+def r18_abstract_let(text, names=()):
+    """`let NAME = EXPR;` (NAME listed in `abstract_lets`) -> `let NAME = abstracted_value();`: the initialiser
+    (an iterator-adapter chain Verus cannot take) is replaced by a contract-less external function, i.e. by an
+    ARBITRARY value of the inferred type. Everything proved afterwards holds for every value of NAME; nothing is
+    proved about NAME itself, and the dropped expression is reported. Only side-effect-free initialisers may be
+    listed (the listing is part of the trusted unit description)."""
+    m = mask(text)
+    for name in names:
+        for mt in re.finditer(r"(?<![A-Za-z0-9_])let\s+%s\s*=\s*" % re.escape(name), m):
+            s0 = mt.end()
+            if m.startswith("abstracted_value()", s0):
+                continue
+            e = _expr_end(m, s0)
+            if e >= len(m) or m[skip_ws(m, e)] != ";":
+                raise Unsupported("R18: initialiser of `%s` does not end in `;`" % name)
+            return [Edit(s0, e, "abstracted_value()", "R18")]
+    return []
+
+
 # ---------------------------------------------------------------- R14 const fn
 def r14_const_fn(text):
     m = mask(text)
@@ -749,7 +769,7 @@ def r14_const_fn(text):
 # ---------------------------------------------------------------- R15 matches! with binding-free patterns is fine; nothing to do
 
 
-ITERATED = {"R6", "R7", "R10", "R11", "R15", "R16", "R17"}
+ITERATED = {"R6", "R7", "R10", "R11", "R15", "R16", "R17", "R18"}
 
 TABLE = {
     "R1": r1_visibility,
@@ -769,10 +789,11 @@ TABLE = {
     "R15": r15_enumerate,
     "R16": r16_for_to_while,
     "R17": r17_fold,
+    "R18": r18_abstract_let,
 }
-ORDER = ["R2", "R1", "R1p", "R14", "R4", "R3", "R5", "R6", "R15", "R13", "R11", "R7", "R8", "R12", "R17", "R10", "R16"]
+ORDER = ["R2", "R1", "R1p", "R14", "R4", "R3", "R5", "R6", "R15", "R13", "R11", "R7", "R8", "R12", "R17", "R18", "R10", "R16"]
 
-EXEC_TOUCHING = {"R3", "R4", "R6", "R7", "R8", "R10", "R11", "R12", "R13", "R14", "R15", "R16", "R17"}
+EXEC_TOUCHING = {"R3", "R4", "R6", "R7", "R8", "R10", "R11", "R12", "R13", "R14", "R15", "R16", "R17", "R18"}
 
 
 def apply_rewrites(text, enabled, opts=None):
@@ -799,6 +820,8 @@ def apply_rewrites(text, enabled, opts=None):
                 eds = fn(cur, opts.get("r13_idents", ()))
             elif rid == "R16":
                 eds = fn(cur, opts.get("r16_only"))
+            elif rid == "R18":
+                eds = fn(cur, opts.get("abstract_lets", ()))
             elif rid == "R2":
                 eds = fn(cur, opts.get("drop_derives", ()))
             else:
